@@ -19,6 +19,10 @@ func runC02(p *Program, r *Report) {
 	r.Rule("R02.3", "E2", 15, "key lookups use the request identity: at every data-plane call of a per-client keystore getter the id argument, followed back across calls, ends only in the access context's client id, a token context's ClientID, the (already overridden) request ClientId, the connection identity, a column setting's ClientID, or nil; a constant, global or service field is a violation")
 	r.Rule("R02.4", "E2", 30, "owner-bound key encryption: every KeyEncryptor.Encrypt/Decrypt call of the v1 keystore takes a context built by NewClientIDKeyContext/NewKeyContext from the same id that names the key; every NewClientIDKeyContext id derives from the enclosing function's own id/filename parameter; v2 contexts include the ring path and the key seqnum with distinct purpose strings")
 	r.Rule("R02.5", "E2", 6, "token scoping: the data id hash and the storage context hash absorb the client id (or additional context) and the data id also the value and the token type; the token encryptor binds ciphertexts to the same context")
+	r.Rule("R02.7", "E2", 9, "the client id picks the key location injectively: in the helpers that turn a client id into a key ring path (v2) or a key file name (v1) the id reaches the result only through conversions, concatenation, fmt.Sprintf, filepath.Join and other such helpers - no replacing, trimming, case folding, hashing or cutting that could send two different ids to one location")
+	ruleR027(p, r)
+	r.Rule("R02.8", "E2", 2, "an identity handed to a session is its own memory: the client id produced by the TLS identity converter / extractor is a freshly allocated value, never a window into a buffer kept in the (shared, per-listener) converter - sessions keep the slice they were given while later handshakes run the same converter")
+	ruleR028(p, r)
 	r.Rule("R02.6", "E2", 2, "the connection identity is a pure function of the peer certificate: the client id returned by tlsClientIDExtractor.ExtractClientID derives only from idConverter.Convert(idExtractor.GetCertificateIdentifier(certificate)) of this very call — no remembered state, cache or other input")
 	ruleR021(p, r)
 	ruleR022(p, r)
@@ -738,4 +742,145 @@ func ruleR026(p *Program, r *Report) {
 		}
 		r.Check(bad == "", "R02.6", name, "exit "+retText(p, ret), p.Pos(ret.Pos()), "Convert(GetCertificateIdentifier(certificate)) of this call", bad+": a request can run under an identity derived from an earlier connection or a partial view of the certificate")
 	}
+}
+
+func ruleR028(p *Program, r *Report) {
+	n := 0
+	for _, fn := range p.SrcFuncs("network") {
+		if fn.Blocks == nil || fn.Signature.Recv() == nil {
+			continue
+		}
+		if fn.Name() != "Convert" && fn.Name() != "ExtractClientID" && fn.Name() != "GetCertificateIdentifier" {
+			continue
+		}
+		if fn.Signature.Results().Len() < 1 {
+			continue
+		}
+		if _, isSl := fn.Signature.Results().At(0).Type().Underlying().(*types.Slice); !isSl {
+			continue
+		}
+		n++
+		recv := fn.Params[0]
+		bad := ""
+		for _, ret := range returnsOf(fn) {
+			v := retValue(ret, 0)
+			if isNilConst(v) {
+				continue
+			}
+			for x := range backClosure(v) {
+				// a slice or array field of the receiver that is written into or re-sliced for the result
+				var fa *ssa.FieldAddr
+				switch y := x.(type) {
+				case *ssa.FieldAddr:
+					fa = y
+				case *ssa.Field:
+					if y.X == ssa.Value(recv) || backClosure(y.X)[recv] {
+						switch y.Type().Underlying().(type) {
+						case *types.Slice, *types.Array:
+							bad = "the result is built in a buffer held by the receiver"
+						}
+					}
+				}
+				if fa == nil {
+					continue
+				}
+				if !backClosure(fa.X)[recv] && fa.X != ssa.Value(recv) {
+					continue
+				}
+				ft := fa.X.Type().Underlying().(*types.Pointer).Elem().Underlying().(*types.Struct).Field(fa.Field).Type()
+				switch ft.Underlying().(type) {
+				case *types.Slice, *types.Array:
+					bad = "the result is built in a buffer held by the receiver"
+				}
+			}
+		}
+		r.Check(bad == "", "R02.8", fnName(fn), "returned identity does not alias converter state", p.Pos(fn.Pos()), "fresh allocation per call", bad+": the next handshake on the same listener overwrites the bytes an open session still uses as its client id, and that session continues under the other client's identity")
+	}
+	if n < 2 {
+		r.Bad("R02.8", "network", "identity producers", "-", "fewer identity converters/extractors found than confirmed by reading")
+	}
+}
+
+func ruleR027(p *Program, r *Report) {
+	var helpers []*ssa.Function
+	isHelper := map[*ssa.Function]bool{}
+	for _, fn := range p.SrcFuncs("keystore/v2/keystore", "keystore/filesystem") {
+		if fn.Blocks == nil || len(fn.Params) == 0 || fn.Signature.Results().Len() != 1 {
+			continue
+		}
+		if b, ok := fn.Signature.Results().At(0).Type().Underlying().(*types.Basic); !ok || b.Info()&types.IsString == 0 {
+			continue
+		}
+		name := fn.Name()
+		v2 := strings.HasSuffix(fnPkgPath(fn), "keystore/v2/keystore") && strings.HasPrefix(name, "client") && strings.HasSuffix(name, "Path")
+		v1 := strings.HasSuffix(fnPkgPath(fn), "keystore/filesystem") && (strings.HasSuffix(name, "KeyFilename") || strings.HasSuffix(name, "KeyName")) && name != "getLogKeyFilename"
+		if !v2 && !v1 {
+			continue
+		}
+		helpers = append(helpers, fn)
+		isHelper[fn] = true
+	}
+	allowed := map[string]bool{"path/filepath.Join": true, "path.Join": true, "fmt.Sprintf": true, "strings.Join": true}
+	for _, fn := range helpers {
+		var id *ssa.Parameter
+		for _, prm := range fn.Params {
+			if prm.Name() == "clientID" || prm.Name() == "id" {
+				id = prm
+			}
+		}
+		if id == nil {
+			continue
+		}
+		bad := ""
+		reach := false
+		for _, ret := range returnsOf(fn) {
+			cl := backClosure(retValue(ret, 0))
+			if cl[id] {
+				reach = true
+			}
+			for v := range cl {
+				switch x := v.(type) {
+				case *ssa.Call:
+					if _, isB := x.Call.Value.(*ssa.Builtin); isB {
+						continue
+					}
+					co := calleeOfCommon(x.Common())
+					full := "an indirect call"
+					if co != nil && co.Pkg() != nil {
+						full = co.Pkg().Path() + "." + co.Name()
+					}
+					if allowed[full] {
+						continue
+					}
+					if sc := x.Common().StaticCallee(); sc != nil && isHelper[sc] {
+						continue
+					}
+					through := false
+					for _, a := range x.Common().Args {
+						if backClosure(a)[id] {
+							through = true
+						}
+					}
+					if through {
+						bad = "the id passes through " + full
+					}
+				case *ssa.Slice:
+					if backClosure(x.X)[id] && (x.Low != nil || x.High != nil) {
+						bad = "the id is cut"
+					}
+				}
+			}
+		}
+		if !reach {
+			bad = "the result does not depend on the id"
+		}
+		r.Check(bad == "", "R02.7", fnName(fn), "client id reaches the key location unchanged", p.Pos(fn.Pos()), "conversions, concatenation and path joining only", bad+": two different client ids can resolve to the same keys, so one client's data is revealed under the other's identity")
+	}
+	if len(helpers) < 9 {
+		r.Bad("R02.7", "keystore", "key location helpers", "-", "fewer id-to-location helpers found than the nine confirmed by reading")
+	}
+}
+
+func init() {
+	mut("C02", "client id reduced to its base name in ring paths", "keystore/v2/keystore/hmac.go", "	return filepath.Join(clientPrefix, string(clientID), hmacSymmetricSuffix)", "	return filepath.Join(clientPrefix, filepath.Base(string(clientID)), hmacSymmetricSuffix)", "R02.7", "unchanged")
 }
